@@ -1,4 +1,4 @@
-/* LD_PRELOAD shim forcing short read()s (C18: "every way the operating system splits the data
+/* LD_PRELOAD shim forcing short read()s and mmap() failures (C18: "every way the operating system splits the data
  * into reads").  Only descriptors >= fdmin (default 3) are affected, so stdin/stdout protocols
  * stay intact.  The size of a read is a function of (mode, seed, number of bytes this descriptor
  * has delivered so far) and nothing else, so lean/Driver/C18.lean can reproduce it exactly:
@@ -8,7 +8,11 @@
  *   mode 3  1 + mix(seed, delivered) % span
  * Configure with KV_SHIM="<mode>:<seed>:<span>[:<fdmin>]" or, from inside the process, through
  * kv_shim_config() (looked up with dlsym by harness/c18.cc).  A read never returns 0 unless the
- * real read did, never more than requested, never fails on its own.
+ * real read did, never more than requested, never fails on its own.  "Delivered so far" is the
+ * file position for seekable descriptors (so it stays meaningful after FilePiece seeks when it
+ * falls back from mmap to read) and a per-descriptor byte counter for pipes.
+ * kv_shim_mmap_fail_from(T): every file-backed mmap() of a descriptor >= fdmin at file offset >= T
+ * fails with ENOMEM (T < 0: never) - exercises MMapShift's fall back to read().
  */
 #define _GNU_SOURCE
 #include <dlfcn.h>
@@ -16,6 +20,8 @@
 #include <stdlib.h>
 #include <string.h>
 #include <unistd.h>
+#include <errno.h>
+#include <sys/mman.h>
 #include <sys/types.h>
 
 #define KV_MAXFD 4096
@@ -27,6 +33,8 @@ static uint64_t kv_calls = 0, kv_shortened = 0;
 void kv_shim_config(int mode, uint64_t seed, uint64_t span, int fdmin) {
   kv_mode = mode; kv_seed = seed; kv_span = span ? span : 1; kv_fdmin = fdmin; kv_inited = 1;
 }
+static long long kv_mmap_fail_from = -1;
+void kv_shim_mmap_fail_from(long long t) { kv_mmap_fail_from = t; }
 void kv_shim_reset(int fd) { if (fd >= 0 && fd < KV_MAXFD) kv_delivered[fd] = 0; }
 uint64_t kv_shim_calls(void) { return kv_calls; }
 uint64_t kv_shim_shortened(void) { return kv_shortened; }
@@ -62,7 +70,10 @@ ssize_t read(int fd, void *buf, size_t n) {
     uint64_t lim;
     if (kv_mode == 1) lim = 1;
     else if (kv_mode == 2) lim = kv_span;
-    else lim = 1 + kv_shim_mix(kv_seed, kv_delivered[fd]) % kv_span;
+    else {
+      off_t here = lseek(fd, 0, SEEK_CUR);
+      lim = 1 + kv_shim_mix(kv_seed, here >= 0 ? (uint64_t)here : kv_delivered[fd]) % kv_span;
+    }
     if (lim < want) { want = (size_t)lim; ++kv_shortened; }
     ++kv_calls;
   }
@@ -77,3 +88,11 @@ int close(int fd) {
   if (fd >= 0 && fd < KV_MAXFD) kv_delivered[fd] = 0;
   return real(fd);
 }
+
+void *mmap(void *addr, size_t len, int prot, int flags, int fd, off_t off) {
+  static void *(*real)(void *, size_t, int, int, int, off_t);
+  if (!real) real = (void *(*)(void *, size_t, int, int, int, off_t))dlsym(RTLD_NEXT, "mmap");
+  if (fd >= kv_fdmin && kv_mmap_fail_from >= 0 && (long long)off >= kv_mmap_fail_from) { errno = ENOMEM; return MAP_FAILED; }
+  return real(addr, len, prot, flags, fd, off);
+}
+void *mmap64(void *addr, size_t len, int prot, int flags, int fd, off_t off) { return mmap(addr, len, prot, flags, fd, off); }
